@@ -17,7 +17,7 @@ ID = "C06"
 LEVEL = "exploration"
 RULE = (
     "histories of 40-160 calls drawn with repetition from a pool of ~120 calls per shard (G cases of all families incl. update ops and graph=True variants; failing calls; "
-    "factories incl. misbehaving ones; adapter calls; confusable groups: sizes 2/2.0/True/np.int64(2)/np.float64(2), (2,2)/[2,2]/array([2,2]), shift 1/1.0/True/(1,)/[1], "
+    "factories incl. misbehaving ones; adapter calls incl. axis names that other adapters (created as history events) declare as keyword-only options; with-blocks left by the exception of a failing call; confusable groups: sizes 2/2.0/True/np.int64(2)/np.float64(2), (2,2)/[2,2]/array([2,2]), shift 1/1.0/True/(1,)/[1], "
     "keepdims True/1, 0-d tensor as ndarray/python scalar/numpy scalar, adapter option 2/2.0) in nestings {none, with numpy.einsum, with numpy.numpylike}; each outcome compared with the "
     "pristine-process outcome; distinct by (call, nesting, position class hit/miss); non-trivial = calls that were cache hits or followed a failing call"
 )
@@ -95,6 +95,14 @@ def build_pool(rng, nprng, n, maxlen):
     for p in (2, 2.0, True, 3):
         add("adapter-option", None, "a [b]", [x], {"p": p}, adapter="reduce")
     add("adapter-raises", None, "a [b]", [x], {"p": "boom"}, adapter="reduce")
+    # adapters of functions WITHOUT keyword-only parameters, with axis names that other adapted functions (created during the
+    # history, see run()) declare as keyword-only options: which names are options is a property of the adapted function alone
+    y3 = np.arange(3.0)
+    for nm in ("k", "n", "q"):
+        add("adapter-axisname", None, f"a {nm}, {nm} -> a {nm}", [x, y3], {}, adapter="ew")
+        add("adapter-axisname", None, f"a {nm}, {nm} -> ({nm} a)", [x, y3], {nm: 3}, adapter="ew")
+        add("adapter-axisname", None, f"a [{nm}]", [x], {}, adapter="red2")
+        add("adapter-axisname", None, f"{nm} [b]", [x], {nm: 2, "p": 2}, adapter="reduce")
     # factories of different signatures on the same call: what they receive (and hence return) follows their own signature
     def fs_plain(shape):
         return np.ones(shape)
@@ -116,23 +124,29 @@ def build_pool(rng, nprng, n, maxlen):
     return pool
 
 
-def perform(pool, adapters, idx, ctx):
-    """Execute pool[idx] inside the nesting ctx (list of backend names) -> digest string."""
+def perform(pool, adapters, idx, ctx, escape=False):
+    """Execute pool[idx] inside the nesting ctx (list of backend names) -> digest string.
+    escape=True: an exception raised by the call leaves the with-blocks (it is caught outside them)."""
     import einx
     import contextlib
     item = pool[idx]
     args = [np.array(t, copy=True) if isinstance(t, np.ndarray) else t for t in item["tensors"]]
-    with contextlib.ExitStack() as st:
-        for name in ctx:
-            st.enter_context(einx.backend.get(name))
-        try:
-            if item["adapter"]:
-                f = adapters[item["adapter"]]
-            else:
-                f = getattr(einx, item["fname"])
-            return digest(f(item["desc"], *args, **item["kwargs"]))
-        except Exception as e:  # noqa
-            return "E:" + type(e).__name__
+    if item["adapter"]:
+        f = adapters[item["adapter"]]
+    else:
+        f = getattr(einx, item["fname"])
+    try:
+        with contextlib.ExitStack() as st:
+            for name in ctx:
+                st.enter_context(einx.backend.get(name))
+            try:
+                return digest(f(item["desc"], *args, **item["kwargs"]))
+            except Exception as e:  # noqa
+                if escape:
+                    raise
+                return "E:" + type(e).__name__
+    except Exception as e:  # noqa
+        return "E:" + type(e).__name__
 
 
 def run(spec, out):
@@ -153,8 +167,25 @@ def run(spec, out):
             raise RuntimeError("user function failed")
         return np.sum(x, axis=axis) * p
 
-    adapters = {"reduce": einx.numpy.adapt_numpylike_reduce(adapted_fn)}
-    zy = Zygote(lambda q: perform(pool, adapters, q["i"], q["ctx"]))
+    def plain_ew(a, b):
+        return a + b
+
+    def plain_red(a, axis):
+        return np.sum(a, axis=axis)
+
+    adapters = {"reduce": einx.numpy.adapt_numpylike_reduce(adapted_fn), "ew": einx.numpy.adapt_numpylike_elementwise(plain_ew), "red2": einx.numpy.adapt_numpylike_reduce(plain_red)}
+    zy = Zygote(lambda q: perform(pool, adapters, q["i"], q["ctx"], q.get("escape", False)))
+
+    def adapt_unrelated(name):
+        """History event: some unrelated function with a keyword-only option called `name` is adapted (and used once)."""
+        ns = {}
+        exec(f"def scaled(a, *, {name}=1.0):\n    return a * {name}\n", ns)
+        ad = einx.numpy.adapt_numpylike_elementwise(ns["scaled"])
+        try:
+            ad("a b", np.ones((2, 3)), **{name: 2.0})
+        except Exception:  # noqa
+            pass
+
     hooks.install()
     import time as _time
     deadline = _time.time() + BUDGET_S[spec.get("tier", "quick")]
@@ -176,6 +207,10 @@ def run(spec, out):
                     ctx = ctx + [rng.choice(["numpy.einsum", "numpy.numpylike"])]
                 elif r < 0.09 and ctx:
                     ctx = ctx[:-1]
+                if rng.random() < 0.05:
+                    adapt_unrelated(rng.choice(["k", "n", "q"]))
+                    out.count("history_event_adapt_unrelated")
+                escape = rng.random() < 0.5
                 # pick a call; with some probability a neighbour of the previous one (confusable groups are adjacent)
                 if step and rng.random() < 0.35:
                     idx = max(0, min(len(pool) - 1, idx + rng.choice([-2, -1, 1, 2])))
@@ -183,14 +218,17 @@ def run(spec, out):
                     idx = rng.randrange(len(pool))
                 item = pool[idx]
                 hooks.window()
-                got = perform(pool, adapters, idx, ctx)
+                zy.submit({"i": idx, "ctx": ctx, "escape": escape})  # the pristine child runs while the in-history call does
+                got = perform(pool, adapters, idx, ctx, escape)
                 miss = bool(hooks.captured)
                 out.evaluation()
                 out.count("cache_miss" if miss else "cache_hit_or_no_compile")
                 out.count(f"label:{item['label']}")
-                exp = zy.ask({"i": idx, "ctx": ctx})
+                exp = zy.result()
+                if escape and ctx and got.startswith("E:"):
+                    out.count("with_block_left_by_exception")
                 wit = {"label": item["label"], "fn": item["fname"] or "adapted", "desc": item["desc"], "kwargs": {k: repr(v)[:40] for k, v in item["kwargs"].items()}, "tensors": [type(t).__name__ + str(getattr(t, "shape", "")) + str(getattr(t, "dtype", "")) for t in item["tensors"]],
-                       "nesting": ctx, "history": h, "step": step, "previous_call_failed": prev_failed}
+                       "nesting": ctx, "exception_leaves_with_block": escape, "history": h, "step": step, "previous_call_failed": prev_failed}
                 if "ok" not in exp:
                     out.count("pristine_oracle_unavailable")
                     if "timeout" in exp:
@@ -226,7 +264,10 @@ def finalize(agg, tier, seed):
     for k in ("equals_pristine_hit", "equals_pristine_miss"):
         if c.get(k, 0) < 15:
             agg.inconclusive.append(f"monitor counter {k} = {c.get(k, 0)}")
-    groups = {"conf-": 15, "factory": 4}
+    for k in ("with_block_left_by_exception", "history_event_adapt_unrelated"):
+        if c.get(k, 0) < 2:
+            agg.inconclusive.append(f"history event {k} observed only {c.get(k, 0)} times")
+    groups = {"conf-": 15, "factory": 4, "adapter-axisname": 4}
     for prefix, minimum in groups.items():
         n = sum(v for k, v in c.items() if k.startswith("label:" + prefix))
         if n < minimum:
